@@ -207,13 +207,13 @@ def _gen_check(rng):
 
 def _gen_split(rng):
     names = rng.sample(NAMES[1:], rng.randint(0, 6))
-    return ["split", [[n, rng.choice([0, 0, 1, 2, 2, 3]), rng.randint(0, 50)] for n in names]]
+    return ["split", [[n, rng.choice([0, 0, 1, 2, 2, 3, 4, 5, 6, 7, 8, 9]), rng.randint(0, 50)] for n in names]]
 
 
 def _gen_creator(rng):
     """ModelCreator: a signature + a dict mixing fixed values, Sliders and option dicts"""
     _, sig, ps = _gen_check(rng)
-    return ["creator", sig, [[n, rng.choice([0, 0, 1, 2, 3]), rng.randint(0, 50)] for n in ps]]
+    return ["creator", sig, [[n, rng.choice([0, 0, 1, 2, 3, 4, 5, 6, 7, 8, 9]), rng.randint(0, 50)] for n in ps]]
 
 
 def _gen_layer_op(rng):
@@ -223,7 +223,9 @@ def _gen_layer_op(rng):
         vmax = vmin + rng.randint(1, 8)
     elif rng.random() < 0.2:
         vmax = rng.randint(9, 12)
-    return ["layer", rng.random() < 0.5, vmin, vmax, rng.choice([4, 4, 2, 1, 3])]
+    elif rng.random() < 0.25:
+        vmin = vmax = rng.randint(0, 8)          # degenerate scale given explicitly
+    return ["layer", rng.random() < 0.5, vmin, vmax, rng.choice([4, 4, 2, 1, 3]), rng.random() < 0.3]
 
 
 def _gen_case(rng, cls=None, nops=None):
@@ -233,6 +235,9 @@ def _gen_case(rng, cls=None, nops=None):
     layer = None
     if has_layer and rng.random() < 0.6:
         layer = [[rng.randint(0, 8) for _ in range(sp["h"])] for _ in range(sp["w"])]
+        if rng.random() < 0.2:
+            c0 = rng.randint(0, 8)         # a constant layer (the usual initial state): the default scale is degenerate
+            layer = [[c0] * sp["h"] for _ in range(sp["w"])]
     pt = _gen_portrayal(rng)
     nk = len(pt)
     ops = []
@@ -260,10 +265,16 @@ def _gen_case(rng, cls=None, nops=None):
             ops.append(["kind", rng.randint(1, n_ids), rng.randrange(nk + 1)])
         elif r < 0.42 and layer is not None:
             ops.append(["setlayer", rng.randrange(sp["w"]), rng.randrange(sp["h"]), rng.randint(0, 8)])
-        elif r < 0.62:
+        elif r < 0.56:
             ops.append(["mpl"])
-        elif r < 0.74:
+        elif r < 0.62:
+            ops.append(["mplc", rng.random() < 0.25])
+        elif r < 0.68:
             ops.append(["altair"])
+        elif r < 0.71:
+            ops.append(["altairc", rng.random() < 0.25])
+        elif r < 0.74:
+            ops.append(["altairenc"])
         elif r < 0.78:
             ops.append(["collect"])
         elif r < 0.88 and layer is not None:
@@ -384,7 +395,7 @@ def enumerate_cases(tier, broken=False):
                 sp["w"], sp["h"] = w, h
             for pt in ([[None] * 4], [[7, 3, 2, 2], [None, 1, None, 0]]):
                 addrs = _addresses(sp) or [(4 * sp["x0"], 4 * sp["y0"]), (4 * sp["x0"] + 1, 4 * sp["y0"] + 2)]
-                draws = [["collect"], ["mpl"], ["altair"]]
+                draws = [["collect"], ["mpl"], ["altair"], ["mplc", False], ["altairc", False], ["altairenc"]]
                 ops = list(draws)
                 ops += [["place", 1, 0, *addrs[0]]] + draws
                 ops += [["place", 2, 1, *addrs[0]]] + draws
@@ -396,7 +407,8 @@ def enumerate_cases(tier, broken=False):
                 if has_layer:
                     layer = [[(3 * x + y) % 9 for y in range(h)] for x in range(w)]
                     ops += [["layer", False, None, None, 4], ["layer", True, None, None, 2],
-                            ["setlayer", 0, h - 1, 8], ["layer", False, 1, 6, 4], ["layer", True, 1, 6, 4]]
+                            ["setlayer", 0, h - 1, 8], ["layer", False, 1, 6, 4], ["layer", True, 1, 6, 4],
+                            ["layer", False, 3, 3, 4, True], ["layer", True, 3, 3, 2, True], ["mplc", True], ["altairc", True]]
                 yield {"space": dict(sp), "portrayal": pt, "layer": layer, "ops": ops}
 
 
@@ -622,6 +634,15 @@ def _shown(fam, color_mode, lo, hi, a4, v):
     return clip(0, 4 * (hi - lo), (v - lo) * a4) if color_mode else v
 
 
+def _shown_degenerate(fam, color_mode, lo, v):
+    """vmin == vmax: imshow gets the entries / nan, +-inf clipped; a degenerate Normalize maps everything to 0"""
+    if fam == "Hex":
+        return 0 if color_mode else lo
+    if not color_mode:
+        return v
+    return -7 if v == lo else (4 if v > lo else 0)
+
+
 def _make_sig_class(sig):
     parts = ["self"]
     last = None
@@ -775,9 +796,7 @@ def run_impl(case):
         layout = {i: (p[0], p[1]) for i, p in enumerate(sp["points"])}
     spring_pos = None
 
-    def draw(layer_portrayal=None):
-        fig = lib["Figure"]()
-        ax = fig.add_subplot()
+    def draw_kwargs():
         kw = {}
         if fam in ("Orth", "Hex", "Net", "Voro"):
             kw["draw_grid"] = bool(sp.get("draw_grid", True))
@@ -785,8 +804,45 @@ def run_impl(case):
             kw = {}
         if layout is not None:
             kw["layout_alg"] = lambda g, **k: dict(layout)
-        draw_space(space, portrayal_fn, propertylayer_portrayal=layer_portrayal, ax=ax, **kw)
+        return kw
+
+    def draw(layer_portrayal=None):
+        fig = lib["Figure"]()
+        ax = fig.add_subplot()
+        draw_space(space, portrayal_fn, propertylayer_portrayal=layer_portrayal, ax=ax, **draw_kwargs())
         return ax
+
+    def component(backend, dflt, i):
+        """make_space_component(...)(model) rendered by Solara; returns what is handed to solara.Figure*"""
+        import solara
+
+        from mesa.visualization.components import make_space_component
+
+        class _M:
+            pass
+
+        holder = _M()
+        setattr(holder, "grid" if i % 2 == 0 else "space", space)     # both attribute names the components look up
+        kw = draw_kwargs() if backend == "matplotlib" else {}
+        comp = make_space_component(None if dflt else portrayal_fn, None, None, backend=backend, **kw)
+        got = {}
+        attr = "FigureMatplotlib" if backend == "matplotlib" else "FigureAltair"
+        orig = getattr(solara, attr)
+        setattr(solara, attr, lambda obj, *a, **k: got.setdefault("obj", obj))
+        import logging
+
+        logging.disable(logging.CRITICAL)      # Solara logs the traceback of a refusing component before re-raising
+        try:
+            @solara.component
+            def _C():
+                comp(holder)
+
+            _, rc = solara.render(_C(), handle_error=False)
+            rc.close()
+        finally:
+            logging.disable(logging.NOTSET)
+            setattr(solara, attr, orig)
+        return got.get("obj")
 
     def collect_obs():
         data = collect_agent_data(space, portrayal_fn, size=float((180 / _extent(sp)) ** 2) if _extent(sp) else 25)
@@ -932,18 +988,100 @@ def run_impl(case):
                     fail(f"C20/altair/{fam}/rows-differ", i,
                          f"altair _draw_grid on {cls} {_dims(sp)} with agents {shadow}, portrayal table {pt} ([size*4, color, marker, zorder*4] per kind): chart.data.values rows "
                          f"[x,y,(has,value) for size,color,marker,zorder] {sorted(rows)}; one per agent at its location as portrayed is {exp}")
+            elif kind in ("mplc", "altairc"):
+                dflt = bool(op[1])
+                ept = [] if dflt else pt
+                if kind == "mplc":
+                    if spring:
+                        obs.append([-2])
+                        continue
+                    fig = component("matplotlib", dflt, i)
+                    dirty = mutated(i, "collect")
+                    rows = _read_markers(fig.axes[0], sp)
+                    obs.append(_rows_obs(rows))
+                    exp = _expected_marks(sp, ept, shadow, drawn=True)
+                    if not dirty and sorted(rows) != exp:
+                        fail("C20/component/mpl/markers-differ", i,
+                             f"make_space_component(backend='matplotlib'{', no agent_portrayal' if dflt else ''})(model) on {cls} {_dims(sp)} with agents {shadow}, "
+                             f"portrayal table {ept}: markers of the Figure handed to Solara {sorted(rows)}; one per agent as portrayed is {exp}")
+                else:
+                    try:
+                        chart = component("altair", dflt, i)
+                    except NotImplementedError:
+                        obs.append([-1, E_NOT_IMPLEMENTED])
+                        if altair != 0:
+                            fail(f"C20/altair/{fam}/unsupported", i, f"SpaceAltair refuses {cls}")
+                        continue
+                    dirty = mutated(i, "altair")
+                    rows = []
+                    ids = []
+                    for d in chart.data.values:
+                        x, y = _decode_xy(sp, d["x"], d["y"], raw=True)
+                        r = [x, y]
+                        r += [1, _near_int(d["size"] * 4, "size (quarter units)")] if "size" in d else [0, 0]
+                        r += [1, COLORS.index(d["color"]) if d["color"] in COLORS else -5] if "color" in d else [0, 0]
+                        r += [1, MARKERS.index(d["marker"]) if d["marker"] in MARKERS else -5] if "marker" in d else [0, 0]
+                        r += [1, _near_int(d["zorder"] * 4, "zorder (quarter units)")] if "zorder" in d else [0, 0]
+                        extra = set(d) - {"x", "y", "size", "color", "marker", "zorder"} - ({"id"} if dflt else set())
+                        if extra:
+                            raise _Bad(f"chart row has fields nobody portrayed: {sorted(extra)}")
+                        if dflt:
+                            ids.append(d.get("id"))
+                        rows.append(r)
+                    obs.append(_rows_obs(rows))
+                    exp = _expected_altair(sp, ept, shadow)
+                    if not dirty and (sorted(rows) != exp or len(set(ids)) != len(ids)):
+                        fail("C20/component/altair/rows-differ", i,
+                             f"make_space_component(backend='altair'{', no agent_portrayal' if dflt else ''})(model) on {cls} {_dims(sp)} with agents {shadow}, "
+                             f"portrayal table {ept}: rows of the Chart handed to Solara {sorted(rows)} (ids {ids}); one per agent is {exp}")
+            elif kind == "altairenc":
+                import altair as alt
+
+                try:
+                    chart = _draw_grid(space, portrayal_fn)
+                except NotImplementedError:
+                    obs.append([-1, E_NOT_IMPLEMENTED])
+                    continue
+                mutated(i, "altair")
+                enc = chart.encoding
+                hc = 0 if enc.color is alt.Undefined else 1
+                hs = 0 if enc.size is alt.Undefined else 1
+                tips = [t.shorthand for t in (enc.tooltip if enc.tooltip is not alt.Undefined else [])]
+                other = set(tips) - {"marker", "zorder"}
+                if other:
+                    raise _Bad(f"tooltips nobody portrayed: {sorted(other)}")
+                msz = getattr(chart.mark, "size", alt.Undefined)
+                sn, sd = (0, 1) if msz is alt.Undefined else _size_frac(msz)
+                o = [0, hc, hs, int("marker" in tips), int("zorder" in tips), sn, sd]
+                obs.append(o)
+                # the statement side: every agent shown with the colour / size ITS portrayal returned
+                flags = [[int((pt[k] if k < len(pt) else [None] * 4)[j] is not None) for j in (1, 0)] for (k, _, _) in shadow.values()]
+                if flags:
+                    anyc, anys = max(f[0] for f in flags), max(f[1] for f in flags)
+                    uniform = all(f == flags[0] for f in flags)
+                    if uniform and [hc, hs] != flags[0]:
+                        fail("C20/altair/encoding/portrayed-keys-not-encoded", i,
+                             f"_draw_grid on {cls} with agents {shadow}, portrayal table {pt}: every agent portrays colour/size {flags[0]} but the chart encodes {[hc, hs]}")
+                    if not uniform and (hc < anyc or hs < anys):
+                        # model and theorem C20_altair_encoding_first_row_only_refuted: the encodings come from the first row only
+                        failures.append({"key": "candidate:C20/altair/encoding/later-agents-keys-not-encoded", "op": i,
+                                         "what": f"some agent portrays a colour/size ({[anyc, anys]}) but the chart encodes {[hc, hs]}: encodings are taken from the first agent"})
+                m = min(sp["w"], sp["h"])
+                if not hs and (sn, sd) != _size_frac(30000 / m ** 2):
+                    fail("C20/altair/encoding/default-mark-size", i, f"default mark size {sn}/{sd} on a {sp['w']}x{sp['h']} space")
             elif kind == "layer":
-                _, cm, vmin, vmax, a4 = op
+                _, cm, vmin, vmax, a4 = op[:5]
+                cbar = bool(op[5]) if len(op) > 5 else False
                 if layer is None:
                     obs.append([-2])
                     continue
                 flat = [v for col in ldata for v in col]
                 lo = vmin if vmin is not None else min(flat)
                 hi = vmax if vmax is not None else max(flat)
-                if hi <= lo:
+                if hi < lo:
                     obs.append([-2])
                     continue
-                lp = {"colorbar": False, "alpha": a4 / 4}
+                lp = {"colorbar": cbar, "alpha": a4 / 4}
                 if cm:
                     lp["color"] = "red"
                 else:
@@ -963,8 +1101,20 @@ def run_impl(case):
                     raise
                 mutated(i, "collect")
                 view, how = _read_layer(ax, sp, cm, lo, hi, a4)
-                obs.append([0, sp["h"], sp["w"]] + view)
-                exp = [_shown(fam, cm, lo, hi, a4, ldata[x][y]) for y in range(sp["h"]) for x in range(sp["w"])]
+                # the colour bar: a second axes whose scale is Normalize(vmin, vmax) (half units; Matplotlib widens a singular scale)
+                cb = [0]
+                if cbar:
+                    cax = [x for x in ax.figure.axes if x is not ax]
+                    cb = [len(cax)] + ([_near_int(2 * v, "colorbar limit") for v in cax[-1].get_ylim()] if cax and hi != lo else [])
+                obs.append([0, sp["h"], sp["w"]] + view + cb)
+                if cbar and cb != [1] + ([] if hi == lo else [2 * lo, 2 * hi]):
+                    fail(f"C20/layer/colorbar-scale", i, f"draw_property_layers with colorbar=True, vmin={vmin}, vmax={vmax} on data range [{min(flat)}, {max(flat)}]: "
+                         f"colour bar axes / limits (x2) {cb}")
+                exp = [(_shown_degenerate(fam, cm, lo, ldata[x][y]) if hi == lo else _shown(fam, cm, lo, hi, a4, ldata[x][y]))
+                       for y in range(sp["h"]) for x in range(sp["w"])]
+                if hi == lo and cm and fam != "Hex" and any(v == -7 for v in view) and view == exp:
+                    failures.append({"key": "candidate:C20/layer/Orth/constant-layer-color-mode-is-nan", "op": i,
+                                     "what": "color mode with vmin == vmax: the alpha channel handed to imshow is NaN where data == vmin"})
                 if view != exp:
                     key = f"C20/layer/{fam}/wrong-cell-values"
                     if fam == "Hex" and how == "image":
@@ -1039,15 +1189,27 @@ def run_impl(case):
                 must_accept = callable_ and not has_varpos
                 inst = object.__new__(M)
 
+                mp = solara.reactive({})
+
                 @solara.component
-                def _T(inst=inst, params=params):
-                    ModelCreator(solara.reactive(inst), params)
+                def _T(inst=inst, params=params, mp=mp):
+                    ModelCreator(solara.reactive(inst), params, model_parameters=mp)
 
                 try:
                     _, rc = solara.render(_T(), handle_error=False)
                     rc.close()
-                    obs.append([0])
+                    # the keyword arguments the model will be (re)created with
+                    kw = mp.value
+                    krows = []
+                    for n, val in kw.items():
+                        krows.append([NAMES.index(n), _decode_value(val["value"] if isinstance(val, dict) else val)])
+                    obs.append(_rows_obs(krows))
                     accepted = True
+                    exp = sorted([NAMES.index(n), _payload(t, v)] for n, t, v in items)
+                    if sorted(krows) != exp:
+                        fail("C20/ModelCreator/kwargs-differ", i,
+                             f"ModelCreator with user_params {_show(items)} (payloads {[v for _, _, v in items]}) sets model_parameters to "
+                             f"[name, value] {sorted(krows)}; the fixed values and the initial values of the adjustable ones are {exp}")
                 except ValueError as e:
                     k = _check_kind(e)
                     if k == 99:
@@ -1072,11 +1234,11 @@ def run_impl(case):
                     out = []
                     for n, val in d.items():
                         if isinstance(val, Slider):
-                            out.append([NAMES.index(n), 1, val.value])
+                            out.append([NAMES.index(n), 1, _decode_value(val.value)])
                         elif isinstance(val, dict):
-                            out.append([NAMES.index(n), 2 if "type" in val else 3, val["value"]])
+                            out.append([NAMES.index(n), 2 if "type" in val else 3, _decode_value(val["value"])])
                         else:
-                            out.append([NAMES.index(n), 0, val])
+                            out.append([NAMES.index(n), 0, _decode_value(val)])
                     return out
 
                 ri, rf = rows_of(inp), rows_of(fixed)
@@ -1107,28 +1269,67 @@ def run_impl(case):
     return {"obs": obs, "failures": failures, "model": not spring}
 
 
+TAG_CLASS = {0: 0, 1: 1, 2: 2, 3: 3, 4: 2, 5: 2, 6: 2, 7: 2, 8: 0, 9: 1}     # tag -> fixed / Slider / dict with type / dict without
+TAG_NAME = {0: "fixed int", 1: "Slider", 2: "dict(type=SliderInt)", 3: "dict without type", 4: "dict(type=SliderFloat)",
+            5: "dict(type=Select)", 6: "dict(type=Checkbox)", 7: "dict(type=InputText)", 8: "fixed str", 9: "Slider(float)"}
+
+
+def _encode_value(tag, v):
+    """the Python value carrying the integer payload v in a model_params entry of that form"""
+    if tag in (0, 1, 2, 3, 5):
+        return v
+    if tag in (4, 9):
+        return v / 2
+    if tag == 6:
+        return bool(v % 2)
+    return str(v)
+
+
+def _decode_value(val):
+    if isinstance(val, bool):
+        return int(val)
+    if isinstance(val, float):
+        return _near_int(val * 2, "float value")
+    if isinstance(val, str):
+        return int(val)
+    if not isinstance(val, int):
+        raise _Bad(f"value {val!r} is none of the values given")
+    return val
+
+
 def _param_dict(items, Slider, widgets=False):
-    """[name, tag, payload] -> model_params dict: 0 fixed value, 1 Slider, 2 dict with "type", 3 dict without"""
+    """[name, tag, payload] -> model_params dict, every form the Solara front end accepts:
+    fixed values (int, str), Slider objects (int / float), option dicts of the five input types, dict without "type" """
     params = {}
     for n, tag, v in items:
-        if tag == 0:
-            params[n] = v
+        val = _encode_value(tag, v)
+        if tag in (0, 8):
+            params[n] = val
         elif tag == 1:
-            params[n] = Slider(n, value=v, min=0, max=100)
+            params[n] = Slider(n, value=val, min=0, max=100)
+        elif tag == 9:
+            params[n] = Slider(n, value=val, min=0, max=100, step=0.5)
         elif tag == 2:
-            if widgets:   # rendered by UserInputs: needs complete options
-                params[n] = [{"type": "SliderInt", "value": v, "min": 0, "max": 100, "step": 1},
-                             {"type": "Checkbox", "value": bool(v % 2)},
-                             {"type": "InputText", "value": str(v)}][v % 3]
-            else:
-                params[n] = {"type": ["SliderInt", "Select", "Checkbox", "InputText"][v % 4], "value": v}
+            params[n] = {"type": "SliderInt", "value": val, "min": 0, "max": 100, "step": 1}
+        elif tag == 4:
+            params[n] = {"type": "SliderFloat", "value": val, "min": 0, "max": 100, "step": 0.5}
+        elif tag == 5:
+            params[n] = {"type": "Select", "value": val, "values": [val, val + 1]}
+        elif tag == 6:
+            params[n] = {"type": "Checkbox", "value": val}
+        elif tag == 7:
+            params[n] = {"type": "InputText", "value": val}
         else:
-            params[n] = {"value": v}
+            params[n] = {"value": val}
     return params
 
 
+def _payload(tag, v):
+    return v % 2 if tag == 6 else v
+
+
 def _show(items):
-    return {n: ["fixed", "Slider", "dict(type=..)", "dict()"][t] for n, t, _ in items}
+    return {n: TAG_NAME[t] for n, t, _ in items}
 
 
 def _dims(sp):
@@ -1170,6 +1371,14 @@ def _read_markers_spring(ax, sp, space, shadow, pt, i, fail):
     return got
 
 
+def _alpha_code(a, lo, hi):
+    """alpha channel as an integer: x 4 (vmax - vmin), or x 4 for a degenerate scale; NaN is -7"""
+    a = float(a)
+    if a != a:
+        return -7
+    return _near_int(a * 4 * ((hi - lo) or 1), "alpha channel")
+
+
 def _read_layer(ax, sp, cm, lo, hi, a4):
     """value shown at the drawing position of each cell (rows first); -9 where nothing is drawn"""
     lib = _libs()
@@ -1203,7 +1412,7 @@ def _read_layer(ax, sp, cm, lo, hi, a4):
                     continue
                 fc = fc[0]
                 if cm:
-                    view.append(_near_int(float(fc[3]) * 4 * (hi - lo), "alpha channel"))
+                    view.append(_alpha_code(fc[3], lo, hi))
                 else:
                     best = min(cand, key=lambda v: sum(abs(float(a) - float(b)) for a, b in zip(cand[v][:3], fc[:3])))
                     err = sum(abs(float(a) - float(b)) for a, b in zip(cand[best][:3], fc[:3]))
@@ -1224,7 +1433,7 @@ def _read_layer(ax, sp, cm, lo, hi, a4):
             if not (0 <= col < ncols and 0 <= row < nrows):
                 view.append(-9)
             elif cm:
-                view.append(_near_int(float(arr[row, col, 3]) * 4 * (hi - lo), "alpha channel"))
+                view.append(_alpha_code(arr[row, col, 3], lo, hi))
             else:
                 view.append(_near_int(arr[row, col], "pixel"))
     return view, "image"
@@ -1274,19 +1483,25 @@ def _coq_op(op):
     if k == "altair":
         return "DrawAltair"
     if k == "layer":
-        return f"DrawLayer {L.b(op[1])} {_oz(op[2])} {_oz(op[3])} {L.z(op[4])}"
+        return f"DrawLayer {L.b(op[1])} {_oz(op[2])} {_oz(op[3])} {L.z(op[4])} {L.b(len(op) > 5 and op[5])}"
+    if k == "mplc":
+        return f"DrawMplC {L.b(op[1])}"
+    if k == "altairc":
+        return f"DrawAltairC {L.b(op[1])}"
+    if k == "altairenc":
+        return "DrawAltairEnc"
     if k == "check":
         sig = [_coq_param("self", "PosOrKw", False)] + [_coq_param(*p) for p in op[1]]
         return f"Check {L.lst(sig)} {L.zlist([NAMES.index(n) for n in op[2]])}"
-    tags = ["VFixed", "VSlider", "VDictType", "VDictNoType"]
+    tags = {t: ["VFixed", "VSlider", "VDictType", "VDictNoType"][c] for t, c in TAG_CLASS.items()}
     if k == "split":
-        return "Split " + L.lst([f"({NAMES.index(n)}, {tags[t]} {L.z(v)})" for n, t, v in op[1]])
+        return "Split " + L.lst([f"({NAMES.index(n)}, {tags[t]} {L.z(_payload(t, v))})" for n, t, v in op[1]])
     if k == "bind":
         sig = [_coq_param("self", "PosOrKw", False)] + [_coq_param(*p) for p in op[1]]
         return f"Bind {L.lst(sig)} {L.zlist([NAMES.index(n) for n in op[2]])}"
     if k == "creator":
         sig = [_coq_param("self", "PosOrKw", False)] + [_coq_param(*p) for p in op[1]]
-        return f"Creator {L.lst(sig)} " + L.lst([f"({NAMES.index(n)}, {tags[t]} {L.z(v)})" for n, t, v in op[2]])
+        return f"Creator {L.lst(sig)} " + L.lst([f"({NAMES.index(n)}, {tags[t]} {L.z(_payload(t, v))})" for n, t, v in op[2]])
     raise ValueError(k)
 
 
@@ -1305,7 +1520,7 @@ def op_kinds(case):
     out = []
     for op in case["ops"]:
         k = op[0]
-        if k in ("mpl", "altair", "collect", "layer"):
+        if k in ("mpl", "altair", "collect", "layer", "mplc", "altairc", "altairenc"):
             k += "/" + case["space"]["cls"]
         out.append(k)
     return out
@@ -1313,7 +1528,7 @@ def op_kinds(case):
 
 def nontrivial(case):
     obs = case.get("_obs", [])
-    draws = [o for op, o in zip(case["ops"], obs) if op[0] in ("mpl", "altair", "collect", "layer", "check", "split", "creator", "bind") and o and o[0] not in (-2,)]
+    draws = [o for op, o in zip(case["ops"], obs) if op[0] in ("mpl", "altair", "collect", "layer", "check", "split", "creator", "bind", "mplc", "altairc", "altairenc") and o and o[0] not in (-2,)]
     return len(case["ops"]) >= 3 and len(draws) >= 1
 
 
